@@ -384,6 +384,9 @@ func expandPredicateHelpersKeep(c *chk.Ctx, conds []ir.Cond, depth int, keep fun
 				call, isCall = e.Tuple.(*ssa.Call)
 				resIdx = e.Index
 			}
+			if isCall && ir.GetterLoad(call) != ssa.Value(call) {
+				isCall = false // a pure getter: the test is the nil test of the field it returns
+			}
 			if isCall {
 				if h := call.Call.StaticCallee(); h != nil && c.P.InRepo[h] && !ir.Exported(h) && resIdx < h.Signature.Results().Len() && (h.Signature.Results().Len() == 1 || x != ssa.Value(call)) {
 					wantNil := eq == cd.Truth
@@ -972,11 +975,23 @@ func ruleGetterStatus(c *chk.Ctx) {
 	for _, g := range c.P.Ext(f) {
 		for _, sw := range statusWrites(c, g) {
 			if phi, ok := sw.arg.(*ssa.Phi); ok {
-				for i, e := range phi.Edges {
-					if k, isC := ir.ConstInt(e); isC {
-						add(k, ir.EdgeConds(phi.Block().Preds[i], phi.Block()))
+				// a status chosen on earlier branches and written at one shared point: one way
+				// per choice, with everything known on its edge
+				var expand func(p *ssa.Phi, depth int)
+				expand = func(p *ssa.Phi, depth int) {
+					for i, e := range p.Edges {
+						pred := p.Block().Preds[i]
+						if inner, isPhi := e.(*ssa.Phi); isPhi && depth < 4 {
+							expand(inner, depth+1)
+							continue
+						}
+						if k, isC := ir.ConstInt(e); isC {
+							conds := append(append([]ir.Cond{}, ir.CondsAt(pred)...), ir.EdgeConds(pred, p.Block())...)
+							add(k, conds)
+						}
 					}
 				}
+				expand(phi, 0)
 				continue
 			}
 			if sw.isC {
@@ -1199,7 +1214,7 @@ func ruleQueryParams(c *chk.Ctx) {
 			c.Undecided("PROV.params", nil, name, 0, "not found")
 			continue
 		}
-		ir.Instrs(f, func(ins ssa.Instruction) {
+		c.P.ExtInstrs(f, func(ins ssa.Instruction) {
 			mu, ok := ins.(*ssa.MapUpdate)
 			if !ok {
 				return
